@@ -257,6 +257,7 @@ func (c07) Run(plan interface{}, schedSeed uint64, replay []simrt.Choice, lenien
 	for _, c := range out.Crashes {
 		v.Violate("panic", "panic "+CrashSig(c), "truncating %s after %d of %d bytes: task %s panicked: %s\n%s", p.Entry, p.K, len(e.Bytes), c.Task, c.Value, c.Stack)
 	}
+	ClientBlocked(v, out, fmt.Sprintf("truncating %s after %d of %d bytes", p.Entry, p.K, len(e.Bytes)))
 	// split the records at the first poll-end marker
 	// p1: everything seen while the package was incomplete (one or two poll phases), p2: afterwards
 	var p1, p2 []PkgRec
